@@ -36,6 +36,74 @@ type c06Case struct {
 	GoType string        `json:"go_type,omitempty"`
 	Data   []byte        `json:"data"`
 	What   string        `json:"what"` // description of the mutation, for the reader
+	// Big describes a file of more than a megabyte with one altered length; Data is
+	// built from it on both sides of the worker pipe instead of being transported.
+	Big *c06Big `json:"big,omitempty"`
+}
+
+// c06Big: a valid file {p: bytes} with one record of Pad incompressible bytes, then
+// one length altered to Claim. What makes it different from the small files: a
+// megabyte or more of genuine bytes follows the altered length.
+type c06Big struct {
+	Pad   int    `json:"pad"`
+	Codec string `json:"codec"`
+	Site  string `json:"site"` // block_len, block_count, schema_len, bytes_len, meta_count, none
+	Claim int64  `json:"claim"`
+}
+
+var c06BigTarget = spec.Struct(spec.FieldSpec{Go: "P", JSON: "p", T: spec.T("bytes")})
+
+func buildBigFile(b c06Big) ([]byte, error) {
+	schema := ref.Schema{Kind: "record", Name: "big", Fields: []ref.Field{{Name: "p", Type: ref.Prim("bytes")}}}
+	pad := make([]byte, b.Pad)
+	x := uint32(2463534242)
+	for i := range pad {
+		x ^= x << 13
+		x ^= x >> 17
+		x ^= x << 5
+		pad[i] = byte(x)
+	}
+	body, err := ref.Encode(schema, ref.Datum{K: "record", Fields: []ref.Datum{ref.Bytes(pad)}}, nil)
+	if err != nil {
+		return nil, err
+	}
+	fs := ref.FileSpec{Schema: []byte(ref.Render(schema, nil)), Codec: b.Codec, Blocks: []ref.Block{{Count: 1, Payload: body}}}
+	copy(fs.Sync[:], "0123456789abcdef")
+	file, lay, err := ref.WriteFile(fs)
+	if err != nil {
+		return nil, err
+	}
+	splice := func(from, to int) []byte {
+		out := append([]byte(nil), file[:from]...)
+		out = ref.AppendLong(out, b.Claim)
+		return append(out, file[to:]...)
+	}
+	bl := lay.Blocks[0]
+	switch b.Site {
+	case "none":
+		return file, nil
+	case "block_len":
+		return splice(bl.CountEnd, bl.SizeEnd), nil
+	case "block_count":
+		return splice(bl.Start, bl.CountEnd), nil
+	case "bytes_len":
+		if b.Codec != "null" {
+			return splice(bl.CountEnd, bl.SizeEnd), nil
+		}
+		_, n, _ := ref.ReadLong(file[bl.SizeEnd:])
+		return splice(bl.SizeEnd, bl.SizeEnd+n), nil
+	case "meta_count":
+		return splice(4, 5), nil
+	case "schema_len":
+		// the length in front of the avro.schema value (or whichever value comes first)
+		i := 5
+		_, n, _ := ref.ReadLong(file[i:]) // key length
+		kl, _, _ := ref.ReadLong(file[i:])
+		i += n + int(kl)
+		_, n, _ = ref.ReadLong(file[i:])
+		return splice(i, i+n), nil
+	}
+	return nil, fmt.Errorf("unknown site %q", b.Site)
 }
 
 func init() {
@@ -56,6 +124,13 @@ var c06Targets = []string{"Simple", "Nested", "MapShapes", "Registered", "Omit",
 // value is fine; the verdict is about panics, death, time and memory, which
 // the parent observes.
 func runC06InWorker(c c06Case) error {
+	if c.Big != nil {
+		data, err := buildBigFile(*c.Big)
+		if err != nil {
+			return fmt.Errorf("VERIF-INCONCLUSIVE harness: %v", err)
+		}
+		c.Data, c.Target, c.Entry = data, c06BigTarget, "file"
+	}
 	switch c.Entry {
 	case "file":
 		typ := spec.Build(c.Target)
@@ -146,7 +221,7 @@ func fileAmplifies(data []byte) bool {
 var c06Excluded int64
 
 func c06Verdict(w *iso.Worker, c c06Case) error {
-	if c.Entry == "file" && fileAmplifies(c.Data) {
+	if c.Big == nil && c.Entry == "file" && fileAmplifies(c.Data) {
 		c06Excluded++
 		return nil
 	}
@@ -162,6 +237,10 @@ func c06Verdict(w *iso.Worker, c c06Case) error {
 		return fmt.Errorf("%s", resp.Err)
 	}
 	limit := int64(32<<20) + 4096*int64(len(c.Data))
+	if c.Big != nil {
+		// incompressible content of known size: a handful of copies of the input is all a reader needs
+		limit = int64(64<<20) + 16*int64(c.Big.Pad)
+	}
 	if resp.HeapGrowth > limit {
 		w.Restart()
 		return fmt.Errorf("%s input (%s) of %d bytes grew the heap footprint by %d MiB (limit %d MiB; %d MiB allocated in total)",
@@ -608,4 +687,48 @@ func TestC06(t *testing.T) {
 	})
 	col.Extra["worker_spawns"] = w.Spawns
 	col.Excluded = c06Excluded
+}
+
+// TestC06Big: files of one to two megabytes with one altered length. The quick
+// tier takes a seeded sample of the grid, the thorough tier all of it.
+func TestC06Big(t *testing.T) {
+	col := stats.New("C06")
+	col.Rule = c06Rule
+	defer col.Flush()
+	w, err := iso.NewWorker()
+	if err != nil {
+		t.Fatalf("VERIF-INCONCLUSIVE cannot start worker: %v", err)
+	}
+	defer w.Close()
+	pads := []int{1<<20 + 4096, 3 << 19, 2<<20 + 7}
+	sites := []string{"block_len", "block_count", "schema_len", "bytes_len", "meta_count", "none"}
+	var grid []c06Big
+	for _, pad := range pads {
+		claims := []int64{1 << 30, 1 << 31, 1 << 40, 1 << 47, 1 << 48, 1 << 62, math.MaxInt64, -1, int64(pad) + 64, int64(pad) - 64, 5 << 20}
+		for _, codec := range []string{"null", "deflate", "snappy"} {
+			for _, site := range sites {
+				for _, claim := range claims {
+					grid = append(grid, c06Big{Pad: pad, Codec: codec, Site: site, Claim: claim})
+					if site == "none" {
+						break
+					}
+				}
+			}
+		}
+	}
+	step, off := 1, 0
+	if !thorough() {
+		step = 9
+		off = int(((seedVal() % 9) + 9) % 9)
+	}
+	for i := off; i < len(grid); i += step {
+		b := grid[i]
+		c := c06Case{Entry: "file", What: fmt.Sprintf("%d KiB %s file, %s := %d", b.Pad>>10, b.Codec, b.Site, b.Claim), Big: &b}
+		col.Record(c, b.Site != "none", "entry_bigfile", "big_"+b.Site)
+		if err := c06Verdict(w, c); err != nil {
+			col.Flush()
+			failCase(t, "C06", "c06", c, err)
+		}
+	}
+	col.Extra["worker_spawns_big"] = w.Spawns
 }
